@@ -494,6 +494,393 @@ theorem depth_le_dttSpec (g : Grammar) (v : Val) (H : FieldlessTerminals g v.sub
   omega
 
 
+/-! ### Memoised relabelling -/
+
+def lchildAdj : LVal → Nat
+  | .list .. => 0
+  | .tuple .. => 0
+  | _ => 1
+
+theorem childAdj_erase (t : LVal) : childAdj t.erase = lchildAdj t := by
+  cases t <;> simp [LVal.erase, childAdj, lchildAdj]
+
+theorem relabelMemoChildren_nil (g : Grammar) : relabelMemoChildren g [] = ((0, 0, 0, []), []) := by
+  rw [relabelMemoChildren]
+
+theorem relabelMemoChildren_cons (g : Grammar) (c : LVal) (cs : List LVal) :
+    relabelMemoChildren g (c :: cs) =
+      (((relabelMemo g c).1.nodes + (relabelMemoChildren g cs).1.1,
+        max ((relabelMemo g c).1.dtt + lchildAdj c) (relabelMemoChildren g cs).1.2.1,
+        (relabelMemo g c).1.weighted + (relabelMemoChildren g cs).1.2.2.1,
+        mergeCounts (relabelMemo g c).1.types (relabelMemoChildren g cs).1.2.2.2),
+       (relabelMemo g c).2 :: (relabelMemoChildren g cs).2) := by
+  cases c <;> simp [relabelMemoChildren, lchildAdj]
+
+theorem eraseList_nil : LVal.eraseList [] = [] := by rw [LVal.eraseList]
+theorem eraseList_cons (v : LVal) (vs : List LVal) :
+    LVal.eraseList (v :: vs) = v.erase :: LVal.eraseList vs := by rw [LVal.eraseList]
+
+/-- the conclusion of memoisation soundness for one tree -/
+def MemoOK (g : Grammar) (t : LVal) : Prop :=
+  (relabelMemo g t).1 = relabel g t.erase ∧
+  (relabelMemo g t).2.erase = t.erase ∧
+  CachesCorrect g (relabelMemo g t).2 ∧
+  (relabelMemo g t).2.rootCache = if t.canCache then some (relabel g t.erase) else none
+
+def MemoListOK (g : Grammar) (ts : List LVal) : Prop :=
+  (relabelMemoChildren g ts).1 = relabelChildren g (LVal.eraseList ts) ∧
+  LVal.eraseList (relabelMemoChildren g ts).2 = LVal.eraseList ts ∧
+  CachesCorrectList g (relabelMemoChildren g ts).2
+
+theorem relabelMemo_node_none_snd (g : Grammar) (c d e : Nat) (args : List LVal) :
+    (relabelMemo g (.node none c d e args)).2 =
+      .node (some (relabelMemo g (.node none c d e args)).1) c d e
+        (if g.isTerminalCls c then args else (relabelMemoChildren g args).2) := by
+  by_cases h : g.isTerminalCls c <;> simp [relabelMemo, h]
+
+theorem relabelMemo_list_none_snd (g : Grammar) (d e : Nat) (vs : List LVal) :
+    (relabelMemo g (.list none d e vs)).2 =
+      .list (some (relabelMemo g (.list none d e vs)).1) d e (relabelMemoChildren g vs).2 := by
+  simp [relabelMemo]
+
+mutual
+theorem memo_ok (g : Grammar) : ∀ t, CachesCorrect g t → MemoOK g t
+  | .node (some l) c d e args => by
+      intro H
+      simp only [CachesCorrect] at H
+      have hl := H.1 l rfl
+      refine ⟨?_, ?_, ?_, ?_⟩
+      · simpa [relabelMemo, LVal.erase] using hl
+      · simp [relabelMemo]
+      · simp only [relabelMemo, CachesCorrect]
+        exact ⟨fun l' h => by cases h; exact hl, H.2⟩
+      · simp [relabelMemo, LVal.rootCache, LVal.canCache, LVal.erase, hl]
+  | .node none c d e args => by
+      intro H
+      simp only [CachesCorrect] at H
+      obtain ⟨ih1, ih2, ih3⟩ := memoList_ok g args H.2
+      have key : (relabelMemo g (.node none c d e args)).1 =
+          relabel g (.node c d e (LVal.eraseList args)) := by
+        by_cases h : g.isTerminalCls c <;> simp [relabelMemo, relabel_node, h, ih1]
+      have hargs : LVal.eraseList (if g.isTerminalCls c then args else (relabelMemoChildren g args).2)
+          = LVal.eraseList args := by
+        by_cases h : g.isTerminalCls c <;> simp [h, ih2]
+      have hcc : CachesCorrectList g (if g.isTerminalCls c then args else (relabelMemoChildren g args).2) := by
+        by_cases h : g.isTerminalCls c <;> simp [h, ih3, H.2]
+      refine ⟨by simpa [LVal.erase] using key, ?_, ?_, ?_⟩
+      · rw [relabelMemo_node_none_snd]; simp [LVal.erase, hargs]
+      · rw [relabelMemo_node_none_snd]; simp only [CachesCorrect, hargs]
+        exact ⟨fun l' h' => by cases h'; exact key, hcc⟩
+      · rw [relabelMemo_node_none_snd]; simp [LVal.rootCache, LVal.canCache, LVal.erase, key]
+  | .list (some l) d e vs => by
+      intro H
+      simp only [CachesCorrect] at H
+      have hl := H.1 l rfl
+      refine ⟨?_, ?_, ?_, ?_⟩
+      · simpa [relabelMemo, LVal.erase] using hl
+      · simp [relabelMemo]
+      · simp only [relabelMemo, CachesCorrect]
+        exact ⟨fun l' h => by cases h; exact hl, H.2⟩
+      · simp [relabelMemo, LVal.rootCache, LVal.canCache, LVal.erase, hl]
+  | .list none d e vs => by
+      intro H
+      simp only [CachesCorrect] at H
+      obtain ⟨ih1, ih2, ih3⟩ := memoList_ok g vs H.2
+      have key : (relabelMemo g (.list none d e vs)).1 =
+          relabel g (.list d e (LVal.eraseList vs)) := by
+        simp [relabelMemo, relabel_list, ih1]
+      refine ⟨by simpa [LVal.erase] using key, ?_, ?_, ?_⟩
+      · rw [relabelMemo_list_none_snd]; simp [LVal.erase, ih2]
+      · rw [relabelMemo_list_none_snd]; simp only [CachesCorrect, ih2]
+        exact ⟨fun l' h' => by cases h'; exact key, ih3⟩
+      · rw [relabelMemo_list_none_snd]; simp [LVal.rootCache, LVal.canCache, LVal.erase, key]
+  | .tuple vs => by
+      intro H
+      simp only [CachesCorrect] at H
+      obtain ⟨ih1, ih2, ih3⟩ := memoList_ok g vs H
+      refine ⟨?_, ?_, ?_, ?_⟩
+      · simp [relabelMemo, relabel_tuple, LVal.erase, ih1]
+      · simp [relabelMemo, LVal.erase, ih2]
+      · simpa [relabelMemo, CachesCorrect] using ih3
+      · simp [relabelMemo, LVal.rootCache, LVal.canCache]
+  | .int _ => by intro _; simp [MemoOK, relabelMemo, LVal.erase, relabel, Val.key, CachesCorrect, LVal.rootCache, LVal.canCache]
+  | .float => by intro _; simp [MemoOK, relabelMemo, LVal.erase, relabel, Val.key, CachesCorrect, LVal.rootCache, LVal.canCache]
+  | .str _ => by intro _; simp [MemoOK, relabelMemo, LVal.erase, relabel, Val.key, CachesCorrect, LVal.rootCache, LVal.canCache]
+  | .bool _ => by intro _; simp [MemoOK, relabelMemo, LVal.erase, relabel, Val.key, CachesCorrect, LVal.rootCache, LVal.canCache]
+  | .foreign _ => by intro _; simp [MemoOK, relabelMemo, LVal.erase, relabel, Val.key, CachesCorrect, LVal.rootCache, LVal.canCache]
+theorem memoList_ok (g : Grammar) : ∀ ts, CachesCorrectList g ts → MemoListOK g ts
+  | [] => by
+      intro _
+      simp [MemoListOK, relabelMemoChildren_nil, eraseList_nil, relabelChildren_nil, CachesCorrectList]
+  | t :: ts => by
+      intro H
+      simp only [CachesCorrectList] at H
+      obtain ⟨a1, a2, a3, _⟩ := memo_ok g t H.1
+      obtain ⟨b1, b2, b3⟩ := memoList_ok g ts H.2
+      refine ⟨?_, ?_, ?_⟩
+      · simp [relabelMemoChildren_cons, eraseList_cons, relabelChildren_cons, a1, b1, childAdj_erase]
+      · simp [relabelMemoChildren_cons, eraseList_cons, a2, b2]
+      · simp only [relabelMemoChildren_cons, CachesCorrectList]; exact ⟨a3, b3⟩
+end
+
+
+theorem eraseList_eq_nil {ts : List LVal} (h : LVal.eraseList ts = []) : ts = [] := by
+  cases ts with
+  | nil => rfl
+  | cons t ts => simp [eraseList_cons] at h
+
+theorem fullyLabelledList_nil : LVal.fullyLabelledList [] = true := by rw [LVal.fullyLabelledList]
+
+mutual
+theorem memo_fullyLabelled (g : Grammar) :
+    ∀ t, FieldlessTerminals g t.erase.subvalues → t.labelClosed = true →
+      (relabelMemo g t).2.fullyLabelled = true
+  | .node (some l) c d e args => by
+      intro _ hc
+      simpa [relabelMemo, LVal.fullyLabelled, LVal.labelClosed] using hc
+  | .node none c d e args => by
+      intro H hc
+      rw [relabelMemo_node_none_snd]
+      by_cases h : g.isTerminalCls c
+      · have : args = [] := eraseList_eq_nil (by
+          rw [LVal.erase] at H; exact H.node_args h)
+        subst this
+        simp [h, LVal.fullyLabelled, fullyLabelledList_nil]
+      · rw [LVal.erase, subvalues_node] at H
+        have ih := memoList_fullyLabelled g args H.tail (by simpa [LVal.labelClosed] using hc)
+        simp [h, LVal.fullyLabelled, ih]
+  | .list (some l) d e vs => by
+      intro _ hc
+      simpa [relabelMemo, LVal.fullyLabelled, LVal.labelClosed] using hc
+  | .list none d e vs => by
+      intro H hc
+      rw [relabelMemo_list_none_snd]
+      rw [LVal.erase, subvalues_list] at H
+      have ih := memoList_fullyLabelled g vs H.tail (by simpa [LVal.labelClosed] using hc)
+      simp [LVal.fullyLabelled, ih]
+  | .tuple vs => by
+      intro H hc
+      rw [LVal.erase, subvalues_tuple] at H
+      have ih := memoList_fullyLabelled g vs H.tail (by simpa [LVal.labelClosed] using hc)
+      simp [relabelMemo, LVal.fullyLabelled, ih]
+  | .int _ => by intro _ _; simp [relabelMemo, LVal.fullyLabelled]
+  | .float => by intro _ _; simp [relabelMemo, LVal.fullyLabelled]
+  | .str _ => by intro _ _; simp [relabelMemo, LVal.fullyLabelled]
+  | .bool _ => by intro _ _; simp [relabelMemo, LVal.fullyLabelled]
+  | .foreign _ => by intro _ _; simp [relabelMemo, LVal.fullyLabelled]
+theorem memoList_fullyLabelled (g : Grammar) :
+    ∀ ts, FieldlessTerminals g (Val.subvaluesList (LVal.eraseList ts)) →
+      LVal.labelClosedList ts = true →
+      LVal.fullyLabelledList (relabelMemoChildren g ts).2 = true
+  | [] => by intro _ _; simp [relabelMemoChildren_nil, LVal.fullyLabelledList]
+  | t :: ts => by
+      intro H hc
+      rw [eraseList_cons, subvaluesList_cons] at H
+      simp only [LVal.labelClosedList, Bool.and_eq_true] at hc
+      have ih1 := memo_fullyLabelled g t H.left hc.1
+      have ih2 := memoList_fullyLabelled g ts H.right hc.2
+      simp [relabelMemoChildren_cons, LVal.fullyLabelledList, ih1, ih2]
+end
+
+/-! flat reading of `CachesCorrect ∧ fullyLabelled` -/
+
+theorem subtrees_node (o : Option Lab) (c d e : Nat) (args : List LVal) :
+    (LVal.node o c d e args).subtrees = .node o c d e args :: LVal.subtreesList args := by
+  rw [LVal.subtrees]
+theorem subtrees_list (o : Option Lab) (d e : Nat) (vs : List LVal) :
+    (LVal.list o d e vs).subtrees = .list o d e vs :: LVal.subtreesList vs := by
+  rw [LVal.subtrees]
+theorem subtrees_tuple (vs : List LVal) :
+    (LVal.tuple vs).subtrees = .tuple vs :: LVal.subtreesList vs := by
+  rw [LVal.subtrees]
+theorem subtreesList_nil : LVal.subtreesList [] = [] := by rw [LVal.subtreesList]
+theorem subtreesList_cons (v : LVal) (vs : List LVal) :
+    LVal.subtreesList (v :: vs) = v.subtrees ++ LVal.subtreesList vs := by rw [LVal.subtreesList]
+
+mutual
+theorem labelled_flat (g : Grammar) :
+    ∀ t, CachesCorrect g t → t.fullyLabelled = true →
+      ∀ x ∈ t.subtrees, x.canCache = true → x.rootCache = some (relabel g x.erase)
+  | .node o c d e args => by
+      intro H hf x hx hcan
+      simp only [CachesCorrect] at H
+      simp only [LVal.fullyLabelled, Bool.and_eq_true] at hf
+      rw [subtrees_node] at hx
+      rcases List.mem_cons.1 hx with rfl | hx
+      · obtain ⟨l, rfl⟩ := Option.isSome_iff_exists.1 hf.1
+        simp [LVal.rootCache, LVal.erase, ← H.1 l rfl]
+      · exact labelledList_flat g args H.2 hf.2 x hx hcan
+  | .list o d e vs => by
+      intro H hf x hx hcan
+      simp only [CachesCorrect] at H
+      simp only [LVal.fullyLabelled, Bool.and_eq_true] at hf
+      rw [subtrees_list] at hx
+      rcases List.mem_cons.1 hx with rfl | hx
+      · obtain ⟨l, rfl⟩ := Option.isSome_iff_exists.1 hf.1
+        simp [LVal.rootCache, LVal.erase, ← H.1 l rfl]
+      · exact labelledList_flat g vs H.2 hf.2 x hx hcan
+  | .tuple vs => by
+      intro H hf x hx hcan
+      simp only [CachesCorrect] at H
+      simp only [LVal.fullyLabelled] at hf
+      rw [subtrees_tuple] at hx
+      rcases List.mem_cons.1 hx with rfl | hx
+      · simp [LVal.canCache] at hcan
+      · exact labelledList_flat g vs H hf x hx hcan
+  | .int _ => by intro _ _ x hx hcan; simp [LVal.subtrees] at hx; subst hx; simp [LVal.canCache] at hcan
+  | .float => by intro _ _ x hx hcan; simp [LVal.subtrees] at hx; subst hx; simp [LVal.canCache] at hcan
+  | .str _ => by intro _ _ x hx hcan; simp [LVal.subtrees] at hx; subst hx; simp [LVal.canCache] at hcan
+  | .bool _ => by intro _ _ x hx hcan; simp [LVal.subtrees] at hx; subst hx; simp [LVal.canCache] at hcan
+  | .foreign _ => by intro _ _ x hx hcan; simp [LVal.subtrees] at hx; subst hx; simp [LVal.canCache] at hcan
+theorem labelledList_flat (g : Grammar) :
+    ∀ ts, CachesCorrectList g ts → LVal.fullyLabelledList ts = true →
+      ∀ x ∈ LVal.subtreesList ts, x.canCache = true → x.rootCache = some (relabel g x.erase)
+  | [] => by intro _ _ x hx; simp [subtreesList_nil] at hx
+  | t :: ts => by
+      intro H hf x hx hcan
+      simp only [CachesCorrectList] at H
+      simp only [LVal.fullyLabelledList, Bool.and_eq_true] at hf
+      rw [subtreesList_cons] at hx
+      rcases List.mem_append.1 hx with hx | hx
+      · exact labelled_flat g t H.1 hf.1 x hx hcan
+      · exact labelledList_flat g ts H.2 hf.2 x hx hcan
+end
+
+mutual
+theorem erase_mem_subvalues : ∀ (t x : LVal), x ∈ t.subtrees → x.erase ∈ t.erase.subvalues
+  | .node o c d e args, x, hx => by
+      rw [subtrees_node] at hx
+      rw [LVal.erase, subvalues_node]
+      rcases List.mem_cons.1 hx with rfl | hx
+      · rw [LVal.erase]; exact List.mem_cons_self
+      · exact List.mem_cons_of_mem _ (eraseList_mem_subvalues args x hx)
+  | .list o d e vs, x, hx => by
+      rw [subtrees_list] at hx
+      rw [LVal.erase, subvalues_list]
+      rcases List.mem_cons.1 hx with rfl | hx
+      · rw [LVal.erase]; exact List.mem_cons_self
+      · exact List.mem_cons_of_mem _ (eraseList_mem_subvalues vs x hx)
+  | .tuple vs, x, hx => by
+      rw [subtrees_tuple] at hx
+      rw [LVal.erase, subvalues_tuple]
+      rcases List.mem_cons.1 hx with rfl | hx
+      · rw [LVal.erase]; exact List.mem_cons_self
+      · exact List.mem_cons_of_mem _ (eraseList_mem_subvalues vs x hx)
+  | .int _, x, hx => by simp [LVal.subtrees] at hx; subst hx; exact mem_subvalues_self _
+  | .float, x, hx => by simp [LVal.subtrees] at hx; subst hx; exact mem_subvalues_self _
+  | .str _, x, hx => by simp [LVal.subtrees] at hx; subst hx; exact mem_subvalues_self _
+  | .bool _, x, hx => by simp [LVal.subtrees] at hx; subst hx; exact mem_subvalues_self _
+  | .foreign _, x, hx => by simp [LVal.subtrees] at hx; subst hx; exact mem_subvalues_self _
+theorem eraseList_mem_subvalues :
+    ∀ (ts : List LVal) (x : LVal), x ∈ LVal.subtreesList ts →
+      x.erase ∈ Val.subvaluesList (LVal.eraseList ts)
+  | [], x, hx => by simp [subtreesList_nil] at hx
+  | t :: ts, x, hx => by
+      rw [subtreesList_cons] at hx
+      rw [eraseList_cons, subvaluesList_cons]
+      rcases List.mem_append.1 hx with hx | hx
+      · exact List.mem_append_left _ (erase_mem_subvalues t x hx)
+      · exact List.mem_append_right _ (eraseList_mem_subvalues ts x hx)
+end
+
+/-! fresh trees -/
+mutual
+theorem erase_fresh : ∀ v : Val, (LVal.fresh v).erase = v
+  | .node c d e args => by rw [LVal.fresh, LVal.erase, eraseList_freshList args]
+  | .list d e vs => by rw [LVal.fresh, LVal.erase, eraseList_freshList vs]
+  | .tuple vs => by rw [LVal.fresh, LVal.erase, eraseList_freshList vs]
+  | .int _ => by simp [LVal.fresh, LVal.erase]
+  | .float => by simp [LVal.fresh, LVal.erase]
+  | .str _ => by simp [LVal.fresh, LVal.erase]
+  | .bool _ => by simp [LVal.fresh, LVal.erase]
+  | .foreign _ => by simp [LVal.fresh, LVal.erase]
+theorem eraseList_freshList : ∀ vs : List Val, LVal.eraseList (LVal.freshList vs) = vs
+  | [] => by simp [LVal.freshList, LVal.eraseList]
+  | v :: vs => by rw [LVal.freshList, LVal.eraseList, erase_fresh v, eraseList_freshList vs]
+end
+
+mutual
+theorem fresh_ok (g : Grammar) : ∀ v : Val, CachesCorrect g (LVal.fresh v) ∧ (LVal.fresh v).labelClosed = true
+  | .node c d e args => by
+      have ih := freshList_ok g args
+      simp [LVal.fresh, CachesCorrect, LVal.labelClosed, ih]
+  | .list d e vs => by
+      have ih := freshList_ok g vs
+      simp [LVal.fresh, CachesCorrect, LVal.labelClosed, ih]
+  | .tuple vs => by
+      have ih := freshList_ok g vs
+      simp [LVal.fresh, CachesCorrect, LVal.labelClosed, ih]
+  | .int _ => by simp [LVal.fresh, CachesCorrect, LVal.labelClosed]
+  | .float => by simp [LVal.fresh, CachesCorrect, LVal.labelClosed]
+  | .str _ => by simp [LVal.fresh, CachesCorrect, LVal.labelClosed]
+  | .bool _ => by simp [LVal.fresh, CachesCorrect, LVal.labelClosed]
+  | .foreign _ => by simp [LVal.fresh, CachesCorrect, LVal.labelClosed]
+theorem freshList_ok (g : Grammar) :
+    ∀ vs : List Val, CachesCorrectList g (LVal.freshList vs) ∧ LVal.labelClosedList (LVal.freshList vs) = true
+  | [] => by simp [LVal.freshList, CachesCorrectList, LVal.labelClosedList]
+  | v :: vs => by
+      have ih1 := fresh_ok g v
+      have ih2 := freshList_ok g vs
+      simp [LVal.freshList, CachesCorrectList, LVal.labelClosedList, ih1, ih2]
+end
+
+
+mutual
+theorem labelClosed_of_fullyLabelled : ∀ t : LVal, t.fullyLabelled = true → t.labelClosed = true
+  | .node o c d e args => by
+      intro h
+      simp only [LVal.fullyLabelled, Bool.and_eq_true] at h
+      simp [LVal.labelClosed, h.1, h.2]
+  | .list o d e vs => by
+      intro h
+      simp only [LVal.fullyLabelled, Bool.and_eq_true] at h
+      simp [LVal.labelClosed, h.1, h.2]
+  | .tuple vs => by
+      intro h
+      simp only [LVal.fullyLabelled] at h
+      simpa [LVal.labelClosed] using labelClosedList_of_fullyLabelledList vs h
+  | .int _ => by simp [LVal.labelClosed]
+  | .float => by simp [LVal.labelClosed]
+  | .str _ => by simp [LVal.labelClosed]
+  | .bool _ => by simp [LVal.labelClosed]
+  | .foreign _ => by simp [LVal.labelClosed]
+theorem labelClosedList_of_fullyLabelledList :
+    ∀ ts : List LVal, LVal.fullyLabelledList ts = true → LVal.labelClosedList ts = true
+  | [] => by simp [LVal.labelClosedList]
+  | t :: ts => by
+      intro h
+      simp only [LVal.fullyLabelledList, Bool.and_eq_true] at h
+      simp [LVal.labelClosedList, labelClosed_of_fullyLabelled t h.1,
+        labelClosedList_of_fullyLabelledList ts h.2]
+end
+
+mutual
+/-- a completely labelled tree is returned as it is: its labels are REUSED, never recomputed -/
+theorem memo_fixes_labelled (g : Grammar) :
+    ∀ t : LVal, t.fullyLabelled = true → (relabelMemo g t).2 = t
+  | .node (some l) c d e args => by intro _; simp [relabelMemo]
+  | .node none c d e args => by intro h; simp [LVal.fullyLabelled] at h
+  | .list (some l) d e vs => by intro _; simp [relabelMemo]
+  | .list none d e vs => by intro h; simp [LVal.fullyLabelled] at h
+  | .tuple vs => by
+      intro h
+      simp only [LVal.fullyLabelled] at h
+      simp [relabelMemo, memoList_fixes_labelled g vs h]
+  | .int _ => by simp [relabelMemo]
+  | .float => by simp [relabelMemo]
+  | .str _ => by simp [relabelMemo]
+  | .bool _ => by simp [relabelMemo]
+  | .foreign _ => by simp [relabelMemo]
+theorem memoList_fixes_labelled (g : Grammar) :
+    ∀ ts : List LVal, LVal.fullyLabelledList ts = true → (relabelMemoChildren g ts).2 = ts
+  | [] => by simp [relabelMemoChildren_nil]
+  | t :: ts => by
+      intro h
+      simp only [LVal.fullyLabelledList, Bool.and_eq_true] at h
+      simp [relabelMemoChildren_cons, memo_fixes_labelled g t h.1, memoList_fixes_labelled g ts h.2]
+end
+
+
 /-! ### Concrete data for the non-vacuity examples of Props/C11.lean -/
 
 namespace LabelsEx
@@ -513,6 +900,20 @@ def prog : Val :=
                           .node 1 2 0 []]]
 /-- ill-formed: an instance of the field-less class `Lit` carrying an `Add` argument -/
 def badProg : Val := .node 1 0 0 [.node 2 1 0 [.node 1 2 0 [], .node 1 2 0 []]]
+/-- `Block([Add(Lit, Lit)])` whose list still carries the labels computed when it was `[Lit]`
+(an element replaced in place without clearing `gengy_labeled`), the `Block` not yet labelled -/
+def staleProg : LVal :=
+  .node none 3 0 0
+    [.list (some (relabel g (.list 1 0 [.node 1 2 0 []]))) 1 0
+      [.node none 2 2 0 [.node none 1 3 0 [], .node none 1 3 0 []]]]
+/-- a variation step: the `Add(Lit, Lit)` labelled by an earlier `relabelMemo` run is reused
+under a new, not yet labelled `Block([Pair((·, 3))])` -/
+def reusedProg : LVal :=
+  .node none 3 0 0
+    [.list none 1 0
+      [.node none 4 2 0
+        [.tuple [(relabelMemo g (LVal.fresh (.node 2 2 0 [.node 1 3 0 [], .node 1 3 0 []]))).2,
+                 .int 3]]]]
 end LabelsEx
 
 end GEVerif
